@@ -12,6 +12,7 @@ mod out;
 mod rng;
 mod sig;
 mod total;
+mod zz;
 
 use std::collections::HashMap;
 
@@ -74,6 +75,7 @@ fn main() {
         "trunc" => sig::run_trunc(&mut tr, &mut rng, &get("what", "ed25519"), num("n", 10), num("part", 0), num("parts", 1)),
         "jq" => sig::run_jq(&mut tr, &mut rng, &get("curve", "jq255e"), num("honest", 6), num("adv", 3)),
         "ecdsa" => sig::run_ecdsa(&mut tr, &mut rng, &get("curve", "p256"), num("honest", 12), num("adv", 12)),
+        "zz" => zz::run(&mut tr, &mut rng, num("n", 10)),
         "total" => total::run(&mut tr, &mut rng, num("part", 0), num("parts", 1), num("step", 1)),
         "frost" => frost::run(&mut tr, &mut rng, &get("script", "")),
         "lms" => lms::run(&mut tr, &mut rng, &get("script", ""), num("deep", 0)),
